@@ -103,7 +103,9 @@ func runC16(c *eng.Ctx, tier string) {
 			// the store lock in the lock analysis)
 			hs := lks.HeldBefore(in)
 			virtual := lks.Holds(hs, keyStore) && !lks.HoldsReal(hs, keyStore)
-			okk := prepub[where] || virtual || where == poll || where == lk
+			// (the lookup routine, or a helper only it calls)
+			inLookup := where == lk || eng.Outer(eng.HelperRoot(where, func(x *ssa.Function) bool { return eng.Outer(x) == lk })) == lk
+			okk := prepub[where] || virtual || where == poll || inLookup
 			c.Check(okk, "R-C16-1", f, in.Pos(), "service request "+eng.InstrStr(in), "the store contacts the service only during construction, in the poll, and in the gated lookup routine", "request issued in "+eng.FName(f))
 		})
 	}
@@ -191,6 +193,7 @@ func runC16(c *eng.Ctx, tier string) {
 		return
 	}
 	lit := mc.Fn.(*ssa.Function)
+	flightLit := lit // the literal handed to Do (it marks "this call ran the fetch")
 	nameP := (*ssa.Parameter)(nil)
 	for _, prm := range lk.Params {
 		if isStringType(prm.Type()) {
@@ -212,10 +215,55 @@ func runC16(c *eng.Ctx, tier string) {
 		}
 	})
 	if fetch == nil {
+		// the body of the flight may be a helper method the literal returns the results of
+		var hc *ssa.Call
+		eng.Instrs(lit, func(in ssa.Instruction) {
+			if call, ok := in.(*ssa.Call); ok && eng.IsHelper(lit, eng.Callee(&call.Call)) && isFetchCall(p, call) {
+				hc = call
+			}
+		})
+		if hc != nil {
+			okFwd := true
+			herr := saveErr(hc)
+			for _, r := range eng.Returns(lit) {
+				rv := eng.RetVals(r)
+				if len(rv) != 2 {
+					okFwd = false
+					continue
+				}
+				v := eng.Origin(rv[0])
+				if mi, isMI := v.(*ssa.MakeInterface); isMI {
+					v = mi.X // (Secret, error) handed on as (any, error)
+				}
+				tc, idx := eng.TupleCall(v)
+				valOK := (tc == hc && idx == 0) || eng.IsNilConst(eng.Origin(rv[0]))
+				errOK := eng.Same(rv[1], herr)
+				if eng.IsNilConst(eng.Origin(rv[1])) {
+					// success is reported only on the nil edge of the helper's error, with its value
+					for _, cond := range eng.FactsAt(r) {
+						if x, isNil, isE := cond.ErrCheck(); isE && isNil && eng.Same(x, herr) {
+							errOK = tc == hc && idx == 0
+						}
+					}
+				}
+				if !valOK || !errOK {
+					okFwd = false
+				}
+			}
+			c.Check(okFwd, "R-C16-2", lit, hc.Pos(), "lookup literal", "returns the results of "+eng.CallStr(&hc.Call)+" unchanged", "")
+			lit = eng.Callee(&hc.Call)
+			eng.Instrs(lit, func(in ssa.Instruction) {
+				if call, ok := in.(*ssa.Call); ok && isStoreClientInvoke(&call.Call) {
+					fetch = call
+				}
+			})
+		}
+	}
+	if fetch == nil {
 		c.Bad("R-C16-2", lit, lit.Pos(), "lookup literal", "fetches the secret", "no service request in the literal")
 		return
 	}
-	c.Check(fetch.Call.Method.Name() == "Get" && nameP != nil && eng.Origin(fetch.Call.Args[1]) == ssa.Value(nameP), "R-C16-2", lit, fetch.Pos(), eng.CallStr(&fetch.Call), "Get(ctx', name) for the same name as the single-flight key", "")
+	c.Check(fetch.Call.Method.Name() == "Get" && nameP != nil && eng.OriginX(fetch.Call.Args[1]) == ssa.Value(nameP), "R-C16-2", lit, fetch.Pos(), eng.CallStr(&fetch.Call), "Get(ctx', name) for the same name as the single-flight key", "")
 
 	// R-C16-4 fallback deadline
 	c16Deadline(c, lk, lit, fetch)
@@ -231,7 +279,7 @@ func runC16(c *eng.Ctx, tier string) {
 	if install == nil {
 		c.Bad("R-C16-3", lit, lit.Pos(), "lookup literal", "a fetched secret is installed into the active set", "no install")
 	} else {
-		c.Check(nameP != nil && eng.Origin(install.Key) == ssa.Value(nameP), "R-C16-3", lit, install.Pos(), eng.InstrStr(install)+" [name]", "installed under the looked-up name", "")
+		c.Check(nameP != nil && eng.OriginX(install.Key) == ssa.Value(nameP), "R-C16-3", lit, install.Pos(), eng.InstrStr(install)+" [name]", "installed under the looked-up name", "")
 		// flush and handle creation follow, in the same critical section
 		hit, path := eng.Search(lit, install, nil, func(x ssa.Instruction) bool {
 			if call, ok := x.(*ssa.Call); ok {
@@ -264,7 +312,7 @@ func runC16(c *eng.Ctx, tier string) {
 				continue
 			}
 			hc, _ := eng.TupleCall(rv[0])
-			okk := hc != nil && returnsSecret(hc) && len(hc.Call.Args) == 2 && nameP != nil && eng.Origin(hc.Call.Args[1]) == ssa.Value(nameP) && eng.InstrDominates(install, hc)
+			okk := hc != nil && returnsSecret(hc) && len(hc.Call.Args) == 2 && nameP != nil && eng.OriginX(hc.Call.Args[1]) == ssa.Value(nameP) && eng.InstrDominates(install, hc)
 			c.Check(okk, "R-C16-3", lit, r.Pos(), "success result of the lookup literal "+eng.InstrStr(r), "a handle for the same name, created after the install (all waiters receive a working handle)", "")
 		}
 	}
@@ -296,7 +344,7 @@ func runC16(c *eng.Ctx, tier string) {
 	c.Check(badRet == nil, "R-C16-3", lit, fetch.Pos(), "error of "+eng.CallStr(&fetch.Call), "a failed fetch is returned as a non-nil error", "")
 
 	// R-C16-5/6/7 the retry loop
-	c16Retry(c, lk, do, lit)
+	c16Retry(c, lk, do, flightLit)
 }
 
 func returnsSecret(call *ssa.Call) bool {
@@ -317,7 +365,7 @@ func c16Deadline(c *eng.Ctx, lk, lit *ssa.Function, fetch *ssa.Call) {
 	}
 	for _, lf := range leaves {
 		site := "context of the lookup fetch: " + eng.ValStr(lf.Val)
-		v := eng.Origin(lf.Val)
+		v := eng.OriginX(lf.Val)
 		if v == ssa.Value(ctxP) {
 			// only on the ok edge of ctx.Deadline()
 			ok := false
@@ -336,7 +384,7 @@ func c16Deadline(c *eng.Ctx, lk, lit *ssa.Function, fetch *ssa.Call) {
 					continue
 				}
 				if ex, isEx := eng.Origin(bv).(*ssa.Extract); isEx && ex.Index == 1 {
-					if call, isC := ex.Tuple.(*ssa.Call); isC && call.Call.IsInvoke() && call.Call.Method.Name() == "Deadline" && eng.Origin(call.Call.Value) == ssa.Value(ctxP) {
+					if call, isC := ex.Tuple.(*ssa.Call); isC && call.Call.IsInvoke() && call.Call.Method.Name() == "Deadline" && eng.OriginX(call.Call.Value) == ssa.Value(ctxP) {
 						ok = true
 					}
 				}
@@ -347,7 +395,7 @@ func c16Deadline(c *eng.Ctx, lk, lit *ssa.Function, fetch *ssa.Call) {
 		if ex, isEx := v.(*ssa.Extract); isEx && ex.Index == 0 {
 			if call, isC := ex.Tuple.(*ssa.Call); isC && (eng.CalleeIs(&call.Call, "context", "WithTimeout") || eng.CalleeIs(&call.Call, "context", "WithDeadline")) {
 				d, isK := eng.ConstInt(call.Call.Args[1])
-				okk := eng.CalleeIs(&call.Call, "context", "WithTimeout") && isK && time.Duration(d) > 0 && time.Duration(d) <= 5*time.Minute && eng.Origin(call.Call.Args[0]) == ssa.Value(ctxP)
+				okk := eng.CalleeIs(&call.Call, "context", "WithTimeout") && isK && time.Duration(d) > 0 && time.Duration(d) <= 5*time.Minute && eng.OriginX(call.Call.Args[0]) == ssa.Value(ctxP)
 				c.Check(okk, "R-C16-4", lit, call.Pos(), site, "context.WithTimeout(caller's ctx, constant d <= 5m): the five-minute safety limit", "timeout "+eng.ValStr(call.Call.Args[1]))
 				// cancel deferred
 				deferred := false
